@@ -373,12 +373,9 @@ def check_scale(nh, ri, explicit_le, second_tree):
             v.append(('stats-dict-shared-between-trees:scale',
                       'two trees holding equal %d-byte diffs share one '
                       'meta["stats"] object' % len(data)))
-        if isinstance(a.get('stats'), dict):
-            a['stats']['insertions'] = -1
-        if isinstance(b.get('stats'), dict) and \
-                b['stats'].get('insertions') == -1:
-            v.append(('stats-aliased-between-trees:scale',
-                      'editing one tree\'s stats changed the other'))
+        # (no probing mutation here: a shared, cached dict would be
+        # poisoned for the rest of this process and later cases would fail
+        # for a reason that does not reproduce in a fresh process)
     return v
 
 
